@@ -299,6 +299,26 @@ func runSites(dir string, seed uint64, tier string) error {
 		}
 	}
 
+	// ---- strings.Fields itself against its model (the library contract the splitter relies on) -------
+	{
+		fieldsOf := func(t string) siteObs { return siteObs{class: ckOk, out: strings.Fields(t)} }
+		corpus := []string{"", " ", "a", " a ", "a b", "a\u00a0b", "a\xc2b", "a\xa0b", "\xc2\xa0", "\xe2\x80\x83", "\xe2\x80", "a\xe2\x80\x83", "\xe2\x80\x83\xe2\x80", "a\u200bb", "a\u180eb", "a\ufeffb",
+			"\u3000a\u3000", "a\u2028b\u2029c", "a\u202fb\u205fc", "a\u1680b", "a\u0085b", "a\x85b", "\xf0\xe2\x80\x83x", "\xe2\xc2\x85y", "\xe2\x80\xc2\x85z", "a\x00b", "a\x1cb\x1db\x1eb\x1fb", "\t\n\v\f\r x",
+			"\xe2\x80\x8b", "\xe2\x80\x8a", "\xe2\x80\xa7\xe2\x80\xa8", "\xe2\x81\x9f\xe2\x81\x9e", "\xe3\x80\x80\xe3\x80\x81", "\xe1\x9a\x80\xe1\x9a\x81", "\xc2\x84\xc2\x85\xc2\x86", "\xc2\x9f\xc2\xa0\xc2\xa1",
+			"\xc0\xa0", "\xe0\x80\xa0", "\xed\xa0\x80", "\xf4\x90\x80\x80", "\xef\xbf\xbd"}
+		for _, t := range corpus {
+			addSite(w, "fields", t, nil, nil, "[]", "[]", fieldsOf(t), "corpus")
+		}
+		pieces := append(append([]string{"a", "bc", "@", "\xff", "\x80", "\xbf", "\xc2", "\xe2", "\xe2\x80", "\xe1\x9a", "\xe3\x80", "\xf0\x9f\x98\x80", "\u00e9"}, spaces...), nonSpaces...)
+		for i := 0; i < 150*scale; i++ {
+			var sb strings.Builder
+			for k, m := 0, 1+r.Intn(7); k < m; k++ {
+				sb.WriteString(gal.Pick(r, pieces))
+			}
+			addSite(w, "fields", sb.String(), nil, nil, "[]", "[]", fieldsOf(sb.String()), "generated")
+		}
+	}
+
 	// ---- unify: (name, pinned) of an original package line ----------------------------
 	// name: the one prefix p of the line for which a resolution holding exactly p locks;
 	// pinned: what unify appends to "p=<version>".
